@@ -206,6 +206,8 @@ def apply_mutation(sb, m, ref_tree=None):
         with open(p, 'wb') as f:
             f.write(data)
         sb.stamp(p)
+        if ref_tree is not None:
+            ref_tree.touch(p)
         return True
     if op == 'flip':
         if not os.path.isfile(p):
@@ -220,7 +222,7 @@ def apply_mutation(sb, m, ref_tree=None):
             f.write(new)
         os.utime(p, ns=(st.st_atime_ns, st.st_mtime_ns))
         if ref_tree is not None:
-            ref_tree.write(p, new)
+            ref_tree.write_keep_meta(p, new)
         return True
     if op == 'del':
         if not os.path.isfile(p):
